@@ -100,6 +100,34 @@ CLAIMED = {
         'environment model; passive 106A activation without PSL (brs=0) and NAD unused; bit-rate selection and "all '
         'later traffic stays within the limits" (C04/C10) are not part of this check. Floats are reals.',
    technique='contract-based deductive verification: encode/decode contracts against independent spec functions (pyvc)'),
+ 'C16': dict(
+   category='proof',
+   text='tt1/tt2 transceive and tt3 send_cmd_recv_rsp against a link model whose every exchange answers with arbitrary '
+        'bytes or fails with timeout/transmission/protocol error (loops of 1+retries unrolled completely): the command '
+        'is re-sent only after a failure, never after an answer, all attempts carry identical bytes, the result is the '
+        'answer of the successful attempt, and after 1+retries failures the TypeNTagCommandError carries the reason code '
+        'of the last error. Surface operations (tt1 read_id/read_all/read_byte/read_block/read_segment/write_byte/'
+        'write_block/_is_present, tt2 read/write/sector_select/_is_present, tt3 polling/read_from_ndef_service/'
+        'write_to_ndef_service/_is_present): for every link behaviour and every response only the tag type\'s '
+        'command error (or the documented ValueError for bad arguments) escapes.',
+   design_ref='DESIGN.md section 5 (C16)',
+   note='The RF link is an environment model (models/clf_models.ExchangeClf). Not covered yet: NDEF-level operations '
+        '(Tag.ndef, format, protect, authenticate, dump), Type 4 (ISO-DEP retries are C12), vendor subclasses; '
+        'BrokenLinkError is outside the quantifier.',
+   technique='contract-based deductive verification: raises-clauses and ghost command log over a symbolic error oracle (pyvc)'),
+ 'C07': dict(
+   category='proof',
+   text='Total-robustness contracts, for every byte string at the position where the peer speaks: dep '
+        'Initiator/Target.decode_frame and ATR/PSL/DEP/DSL/RLS decode raise only ProtocolError/TransmissionError; '
+        'AggregatedFrame.decode decodes only non-AGF sub-PDUs (the recursion depth is one: the sub-PDU call site '
+        'satisfies the precondition of the non-recursive decode summary, which is justified by the C11 case contracts), '
+        'every TLV loop has a variant; ParameterExchange.decode yields parameters within their field widths; '
+        'llc.activate returns a bool for arbitrary general bytes in both roles; Type3TagEmulation.process_command '
+        'returns a response or None for every command (block-list parsers bounded to 2 services/2 blocks, not counted).',
+   design_ref='DESIGN.md section 5 (C07)',
+   note='The MAC is an assumed contract (returns arbitrary general bytes). Not covered yet: llc.exchange/run loops, '
+        'SNEP/handover servers, connect(); thread death and blocking are outside this family (DESIGN section 6).',
+   technique='contract-based deductive verification: raises = documented classes over fully symbolic byte strings (pyvc)'),
 }
 
 NOT_APPLICABLE = {}
